@@ -77,6 +77,13 @@ TS_QUERIES = [("modified = T1 written without fraction", "modified", "=", "2020-
               ("modified >= T2 written with six digits", "modified", ">=", "2020-01-02T00:00:00.000000Z"), ("modified < T2 written without fraction", "modified", "<", "2020-01-02T00:00:00Z"),
               ("modified <= T3 written .50Z", "modified", "<=", "2020-01-03T00:00:00.50Z"), ("created = T1 written .0Z", "created", "=", "2020-01-01T00:00:00.0Z")]
 _OPS = {"=": lambda a, b: a == b, ">=": lambda a, b: a >= b, "<": lambda a, b: a < b, "<=": lambda a, b: a <= b}
+# type / id filters under EVERY operator (the file-system store derives directory shortcuts from =, in and != only; the others must fall through to the plain comparison)
+KEY_QUERIES = [("type != tool", "type", "!=", "tool", lambda t, i: t != "tool"), ("type in [tool, malware, absent]", "type", "in", ["tool", "malware", "absent"], lambda t, i: t in ("tool", "malware")),
+               ("type > identity", "type", ">", "identity", lambda t, i: t > "identity"),
+               ("type <= malware", "type", "<=", "malware", lambda t, i: t <= "malware"),
+               ("type contains al", "type", "contains", "al", lambda t, i: "al" in t),
+               ("id != A", "id", "!=", A, lambda t, i: i != A), ("id in [A, absent]", "id", "in", [A, "tool--00000000-0000-4000-8000-000000000000"], lambda t, i: i == A),
+               ("id > m", "id", ">", "m", lambda t, i: i > "m")]
 
 
 def register_custom():
@@ -243,7 +250,13 @@ def observe(store, part, what):
             obs["tsq"][label] = sorted(((o["id"], instant_of(o)) for o in store.query([Filter(prop, op, text)]) if o["id"] not in DICT_KEPT), key=str)
         except Exception as e:
             obs["tsq"][label] = "EXC:" + type(e).__name__
-    part.transitions += 2 * len(IDS) + len(TYPES) + 1 + len(TS_QUERIES)
+    obs["keyq"] = {}
+    for label, prop, op, val, _ in KEY_QUERIES:
+        try:
+            obs["keyq"][label] = sorted(((o["id"], instant_of(o)) for o in store.query([Filter(prop, op, val)])), key=str)
+        except Exception as e:
+            obs["keyq"][label] = "EXC:" + type(e).__name__
+    part.transitions += 2 * len(IDS) + len(TYPES) + 1 + len(TS_QUERIES) + len(KEY_QUERIES)
     return obs
 
 
@@ -314,6 +327,13 @@ def compare(sname, obs, model, part, case, conflicted):
         elif set(map(tuple, gq)) != set(exp_q):
             part.violation("C11/%s/timestamp-text-query/%s/%s" % (sname, prop, op), "a query by a timestamp given as text (another spelling of the instant) does not return exactly the stored versions it denotes",
                            dict(case, query=label), exp_q, gq)
+    for label, prop, op, val, pred in KEY_QUERIES:
+        exp_k = sorted(((i, x) for (i, x) in model.keys() if pred(i.split("--")[0], i)), key=str)
+        gk = obs["keyq"][label]
+        if isinstance(gk, str):
+            part.violation("C11/%s/key-query-raises/%s/%s:%s" % (sname, gk, prop, op), "a query by type / id raises", dict(case, query=label), exp_k, gk)
+        elif set(map(tuple, gk)) != set(exp_k):
+            part.violation("C11/%s/key-query/%s:%s" % (sname, prop, op), "a query by type / id under this operator does not return exactly the stored objects that satisfy it", dict(case, query=label), exp_k, gk)
     # contents of every version that was added with a single content
     if not isinstance(obs["all"], str):
         for (i, t), hashes in obs["content"].items():
@@ -427,7 +447,7 @@ def _run_history(case, part):
         compare("fs", fobs, fm, part, case, conflicted)
         if mm.keys() == fm.keys() and not conflicted:
             # same acknowledged contents => the two stores must answer identically (three-way agreement)
-            for key in ("all", "versions", "types", "tsq"):
+            for key in ("all", "versions", "types", "tsq", "keyq"):
                 a, b = mobs[key], fobs[key]
                 if key == "all" and not isinstance(a, str) and not isinstance(b, str):
                     a, b = sorted(set(map(tuple, a)), key=str), sorted(set(map(tuple, b)), key=str)
